@@ -49,9 +49,9 @@ CHECKS = [
     {
         "property_id": "C08",
         "cpp": True,
-        "technique": "metamorphic property-based testing (Hypothesis): sharing-pool models with CSE on vs off in both back-ends, plus a single-assignment validity predicate over the generated C++ text and the Python prefix callables",
-        "text": "Generated models with forced nested shared sub-expressions: Python model/Jacobians/prediction/update with CSE on vs off must agree and match the reference; the same definition generated as C++ with CSE on and off, both compiled and run, must agree entry for entry; every temporary in the generated C++ is declared once, before use, from inputs and earlier temporaries only (textual SSA predicate), and the Python prefix callables take exactly arglist + earlier temporaries. Exploration.",
-        "note": "SSA predicate is a regex over FormaK's generated source layout; C++ via the stand-in; <=4 states.",
+        "technique": "metamorphic property-based testing (Hypothesis): sharing-pool models with CSE on vs off in both back-ends, plus a layout-agnostic single-assignment validity predicate over the generated C++ text",
+        "text": "Generated models with forced nested shared sub-expressions: Python model/Jacobians/prediction/update with CSE on vs off must agree and match the reference; the same definition generated as C++ with CSE on and off, both compiled and run, must agree entry for entry; every temporary in the generated C++ is declared once, never assigned again and only used after its declaration in a visible scope (layout-agnostic single-assignment predicate over statements; temporaries recognised by the underscore-letters-number naming convention of local doubles). The Python back-end is judged by values only. Exploration.",
+        "note": "single-assignment predicate is textual (statement / brace level, independent of whitespace, qualifiers and the letters in the temporaries' names); direct on-vs-off comparison skipped at ill-conditioned points (error scale > 1e8), where each side is still compared with the reference; C++ via the stand-in; <=4 states.",
     },
     {
         "property_id": "C10",
